@@ -85,6 +85,21 @@ def _io_copy(ex, st, args, dest_ty, func, where):
         cur, limit = rd.f[0], rd.f[1].t
     while isinstance(cur, VRef):
         cur = ex.deref(st, cur)
+    if isinstance(out, VStruct) and out.name == "RecordingWriter" and isinstance(cur, VStruct) and cur.name == "Cursor":
+        # draining into a sink: only the reader position matters
+        data, pos = cur.f[0], cur.f[1].t
+        left = z3.If(pos <= data.len, data.len - pos, 0)
+        n = simp(left if limit is None else z3.If(limit < left, limit, left))
+        newcur = VStruct("Cursor", [data, VInt(simp(pos + n), "u64")])
+        inner = rd.f[0] if limit is not None else None
+        if inner is not None and isinstance(inner, VRef):
+            r2, _ = _find_place(ex, st, inner)
+            ex.store_ref(st, r2, newcur)
+        elif limit is None:
+            ex.store_ref(st, rref, newcur)
+        else:
+            ex.store_ref(st, rref, VStruct("Take", [newcur, VInt(simp(limit - n), "u64")]))
+        return VEnum("Result", I(0), {0: [VInt(n, "u64")]})
     if not (isinstance(cur, VStruct) and cur.name == "Cursor" and isinstance(out, VSeq)):
         raise Unsupported("io::copy from %r into %r" % (rd, out))
     data, pos = cur.f[0], cur.f[1].t
@@ -161,18 +176,42 @@ def _hasher_update(ex, st, args, dest_ty, func, where):
     return ref
 
 
+def hash_bytes(ex, seq):
+    """byte-level hash model: out[i] = HB_i(len, c_0..c_{cap-1}) — 32 uninterpreted functions of the content
+    (any hash function; partial comparisons of the digest are therefore visible)"""
+    cap = ex.hash_cap
+    if not hasattr(ex, "HB"):
+        ex.HB = [z3.Function("HB%d" % i, *([z3.IntSort()] * (cap + 2))) for i in range(32)]
+        ex.HB_apps = []
+    args = [seq.len] + [z3.If(k < seq.len, seq.at(I(k)), I(0)) for k in range(cap)]
+    out = []
+    for i in range(32):
+        t = ex.HB[i](*args)
+        out.append(VInt(t, "u8"))
+    ex.HB_apps.append((seq, out))
+    for o in out:
+        ex.assumes += [o.t >= 0, o.t <= 255]
+    return VStruct("[array]", out)
+
+
 def _hasher_finalize(ex, st, args, dest_ty, func, where):
     h = deep(ex, st, args[0])
+    if getattr(ex, "hash_model", "ideal") == "bytes":
+        return VStruct("Hash", [hash_bytes(ex, h.f[0])])
     return VStruct("Hash", [h.f[0]])
 
 
 def _hash_as_bytes(ex, st, args, dest_ty, func, where):
     h = deep(ex, st, args[0])
+    if isinstance(h.f[0], VStruct) and h.f[0].name == "[array]":
+        return VRef("val", val=h.f[0])
     return VRef("val", val=VStruct("HashBytes", [h.f[0]]))
 
 
 def _strong_from_bytes(ex, st, args, dest_ty, func, where):
     b = deep(ex, st, args[0])
+    if isinstance(b, VStruct) and b.name == "[array]":
+        return VStruct("StrongHash", [b])
     if not (isinstance(b, VStruct) and b.name == "HashBytes"):
         raise Unsupported("StrongHash::from_bytes of %r" % (b,))
     return VStruct("StrongHash", [b.f[0]])
@@ -180,6 +219,8 @@ def _strong_from_bytes(ex, st, args, dest_ty, func, where):
 
 def _strong_as_bytes(ex, st, args, dest_ty, func, where):
     h = deep(ex, st, args[0])
+    if isinstance(h.f[0], VStruct) and h.f[0].name == "[array]":
+        return VRef("val", val=h.f[0])
     return VRef("val", val=VStruct("HashBytes", [h.f[0]]))
 
 
@@ -287,7 +328,7 @@ def install(ex):
     A(r"^<R as (std::io::)?Seek>::seek$", _seek, "Cursor::seek(SeekFrom::Start)")
     A(r"^<R as (std::io::)?Read>::read_exact$", _read_exact, "Cursor::read_exact (all or UnexpectedEof)")
     A(r"^<W as (std::io::)?Write>::write_all$", _write_all, "Vec<u8>::write_all (never fails)")
-    A(r"^<R as (std::io::)?Read>::take$", _take, "Read::take")
+    A(r"^<(&mut )?R as (std::io::)?Read>::take$", _take, "Read::take")
     A(r"^std::io::copy::<", _io_copy, "std::io::copy between in-memory reader and writer")
     A(r"^<std::io::Error as From<.*>>::from$|^<std::io::Error as Into<.*>>::into$|^std::io::Error::new::<", _opaque_err, "io::Error constructors (opaque)")
     A(r"^Vec::<\w+>::as_slice$", _as_slice, "Vec::as_slice")
